@@ -726,7 +726,7 @@ MANIFEST = dict(
     note='numba JIT of count_bits trusted to implement its py_func source '
     '(differential-tested on seeded values); PSK phase offsets are literals; '
     'min-distance pairs = adjacent slots checked on the table for M<=256'
-    ' Concrete data-representation / scale / boundary probes of the real'
+    '. Concrete data-representation / scale / boundary probes of the real'
     ' code (dtype, container and memory-layout variants, argument'
     ' immutability, magnitudes) accompany the symbolic runs; they are'
     ' differential runs, not solver verdicts.',
